@@ -171,7 +171,10 @@ where
 
         RefSync {
             inner,
-            family: self.family.clone(),
+            cleanup: ThreadStateCleanup {
+                family: self.family.clone(),
+                thread_id: thread::current().id(),
+            },
         }
     }
 }
@@ -201,7 +204,10 @@ where
     // We really are just a wrapper around an Arc<T>. The only other duty we have
     // is to clean up the thread-local instance when the last `RefSync` is dropped.
     inner: Arc<T>,
-    family: FamilyStateReference<T>,
+
+    // NB! Must be declared after `inner` - fields are dropped in declaration order and the
+    // cleanup logic relies on our own reference to the instance having been released already.
+    cleanup: ThreadStateCleanup<T>,
 }
 
 impl<T> Deref for RefSync<T>
@@ -227,30 +233,37 @@ where
 
         Self {
             inner: Arc::clone(&self.inner),
-            family: self.family.clone(),
+            cleanup: ThreadStateCleanup {
+                family: self.cleanup.family.clone(),
+                thread_id: self.cleanup.thread_id,
+            },
         }
     }
 }
 
-impl<T> Drop for RefSync<T>
+/// Removes the thread-specific state of the thread a `RefSync` is aligned to once the last
+/// `RefSync` aligned to that thread is gone - no matter which thread it is dropped on.
+///
+/// This is a field of `RefSync`, dropped after the `RefSync` has released its own reference
+/// to the instance of `T`.
+#[derive(Debug)]
+struct ThreadStateCleanup<T>
+where
+    T: linked::Object + Send + Sync,
+{
+    family: FamilyStateReference<T>,
+
+    // The thread the `RefSync` is aligned to (on which it was acquired), which is not necessarily
+    // the thread it is dropped on - a `RefSync` may be moved to a different thread.
+    thread_id: ThreadId,
+}
+
+impl<T> Drop for ThreadStateCleanup<T>
 where
     T: linked::Object + Send + Sync,
 {
     fn drop(&mut self) {
-        // If we were the last RefSync on this thread then we need to drop the thread-local
-        // state for this thread. Note that there are 2 references - ourselves and the family state.
-        #[cfg(folo_verif)]
-        crate::verif::point("pts.drop.count");
-
-        if Arc::strong_count(&self.inner) != 2 {
-            // No - there is another RefSync, so we do not need to clean up.
-            return;
-        }
-
-        self.family.clear_current_thread_instance();
-
-        // `self.inner` is now the last reference to the current thread's instance of T
-        // and this instance will be dropped once this function returns and drops the last `Arc<T>`.
+        self.family.release_thread_instance(self.thread_id);
     }
 }
 
@@ -340,17 +353,37 @@ where
         }
     }
 
-    fn clear_current_thread_instance(&self) {
-        // We need to clear the thread-specific state for this thread.
-        let thread_id = thread::current().id();
-
+    /// Drops the instance of the given thread if no `RefSync` aligned to it remains.
+    ///
+    /// Called after a `RefSync` aligned to that thread has released its reference to the instance.
+    fn release_thread_instance(&self, thread_id: ThreadId) {
         #[cfg(folo_verif)]
         crate::verif::block_until("pts.drop.clear", &|| {
             crate::verif::lock_is_free(self.thread_specific.try_write())
         });
 
         let mut map = self.thread_specific.write().expect(ERR_POISONED_LOCK);
-        map.remove(&thread_id);
+
+        // New references to the instance are only ever created from an existing `RefSync` or from
+        // the map entry under the lock we are holding, so if the map entry is the only reference
+        // now, it will remain the only one until we remove it. The test must be made under the
+        // lock - `RefSync` instances aligned to the same thread may be dropped concurrently on
+        // different threads and whichever of them gets here last must be the one to clean up.
+        let hash_map::Entry::Occupied(entry) = map.entry(thread_id) else {
+            return;
+        };
+
+        if Arc::strong_count(&entry.get().instance) != 1 {
+            // There is another RefSync aligned to that thread, so we do not need to clean up.
+            return;
+        }
+
+        let state = entry.remove();
+
+        // The instance of `T` is dropped here, after the lock has been released,
+        // because dropping it may execute arbitrary code.
+        drop(map);
+        drop(state);
     }
 }
 
